@@ -436,6 +436,30 @@ fn job_scan(job: &Value, leaf_cache: &LeafCache) -> Value {
 // ---------------------------------------------------------------------------------------------
 // minterm sweep: partition of all scalar values by (registered classes, leaves)
 
+const NWORDS: usize = (0x110000 + 63) / 64;
+type BitsetCache = Mutex<HashMap<String, Option<Arc<Vec<u64>>>>>;
+static LEAF_BITS: std::sync::LazyLock<BitsetCache> = std::sync::LazyLock::new(|| Mutex::new(HashMap::new()));
+
+/// Membership of every scalar value in the one-pattern scanner of a leaf (cached per leaf text).
+fn leaf_bitset(leaf_cache: &LeafCache, leaf: &str) -> Option<Arc<Vec<u64>>> {
+    if let Some(b) = LEAF_BITS.lock().unwrap().get(leaf) {
+        return b.clone();
+    }
+    let b = leaf_scanner(leaf_cache, leaf).map(|s| {
+        let mut bits = vec![0u64; NWORDS];
+        for cp in 0..=0x10FFFFu32 {
+            if let Some(c) = char::from_u32(cp) {
+                if leaf_matches(&s, c) {
+                    bits[cp as usize / 64] |= 1 << (cp % 64);
+                }
+            }
+        }
+        Arc::new(bits)
+    });
+    LEAF_BITS.lock().unwrap().insert(leaf.to_string(), b.clone());
+    b
+}
+
 fn job_sweep(job: &Value, leaf_cache: &LeafCache) -> Value {
     let modes_json = &job["modes"];
     let modes = modes_from_json(modes_json);
@@ -455,7 +479,7 @@ fn job_sweep(job: &Value, leaf_cache: &LeafCache) -> Value {
     let dump = verif::dump(&scanner);
     let ncls = dump.classes.len();
     let leaves: Vec<String> = leaves.into_iter().collect();
-    let leaf_scanners: Vec<Option<Arc<Scanner>>> = leaves.iter().map(|l| leaf_scanner(leaf_cache, l)).collect();
+    let leaf_bits: Vec<Option<Arc<Vec<u64>>>> = leaves.iter().map(|l| leaf_bitset(leaf_cache, l)).collect();
     // signature -> (representative, count)
     let mut sigs: HashMap<Vec<u8>, (u32, u32)> = HashMap::new();
     let nbits = ncls + leaves.len();
@@ -467,9 +491,9 @@ fn job_sweep(job: &Value, leaf_cache: &LeafCache) -> Value {
                 sig[cc / 8] |= 1 << (cc % 8);
             }
         }
-        for (i, ls) in leaf_scanners.iter().enumerate() {
-            if let Some(ls) = ls {
-                if leaf_matches(ls, c) {
+        for (i, lb) in leaf_bits.iter().enumerate() {
+            if let Some(lb) = lb {
+                if lb[cp as usize / 64] & (1 << (cp % 64)) != 0 {
                     let b = ncls + i;
                     sig[b / 8] |= 1 << (b % 8);
                 }
@@ -496,6 +520,7 @@ fn job_sweep(job: &Value, leaf_cache: &LeafCache) -> Value {
         ),
     );
     res.insert("leaves".into(), json!(leaves));
+    res.insert("leaf_builds".into(), json!(leaf_bits.iter().map(|b| b.is_some()).collect::<Vec<_>>()));
     res.insert("dump".into(), dump_to_json(&dump));
     res.insert(
         "minlog".into(),
